@@ -17,8 +17,9 @@ RULE = ('exhaustive units: every pair of method subsets of {GET,HEAD,POST,PUT,AN
         'operation sequences over 4 rules (two of them also spelled with another wildcard name) - route(method=str|list, upper/lower/mixed case, ANY), duplicate registration (must be rejected '
         'atomically), overwrite=True, Route.remove_method, RouteMethod.remove, method shortcuts - each followed by a probe of every verb x path. '
         'Non-trivial = the dispatch needed a fallback, a 405 or a case conversion; distinct = distinct (table, verb, path).')
-REQUIRED = ['own_verb', 'head_to_get', 'to_any', 'head_to_any', 'status_405', 'status_404', 'allow_compared', 'lowercase_request_verb',
-            'lowercase_registration', 'rejected_duplicate', 'overwritten', 'removed_method', 'head_no_body', 'resolve_compared', 'empty_table_405', 'respelled_rule']
+PYOPT = {'quick': 1, 'thorough': 1}     # one unit of every kind is also served by an interpreter started with -O (assert statements compiled out)
+REQUIRED = ['units_run_under_python_-O', 'own_verb', 'head_to_get', 'to_any', 'head_to_any', 'status_405', 'status_404', 'allow_compared', 'lowercase_request_verb',
+            'lowercase_registration', 'rejected_duplicate', 'overwritten', 'removed_method', 'head_no_body', 'resolve_compared', 'empty_table_405', 'respelled_rule', 'candidates_given_as_a_tuple', 'removed_names_given_as_a_tuple']
 EXHAUSTIVE = {'quick': False, 'thorough': True,
               'quick_note': 'complete for one route: all 32 method subsets x 9 verbs x 4 paths',
               'thorough_note': 'complete for two routes: all 32x32 pairs of method subsets x 9 verbs x 4 paths'}
@@ -117,7 +118,11 @@ class World:
                 return
             rm.remove()
         else:
-            route.remove_method(method)
+            if isinstance(method, list) and len(tbl) % 2:
+                route.remove_method(tuple(method))
+                ctx.count('removed_names_given_as_a_tuple')
+            else:
+                route.remove_method(method)
         if isinstance(method, str):
             method = [method]
         for m in method:
@@ -190,6 +195,9 @@ def probe(ctx, w, rule_paths, verbs, wit_fn, sample=False):
             ctx.count('resolve_compared')
             v = verb.upper()
             methods = [v, 'GET', 'ANY'] if v == 'HEAD' else [v, 'ANY']
+            if (len(path) + len(verb) + len(tbl)) % 2:
+                methods = tuple(methods)        # any sequence of names is a candidate list
+                ctx.count('candidates_given_as_a_tuple')
             ep, err = app.router.resolve(path, methods)
             if exp[0] == 'handler':
                 if err or ep[0].handler.__name__ != exp[1]:
